@@ -38,17 +38,17 @@ theorem pollStep_invS (s : St) (inp : PollIn) (h : InvS s none) :
     dsimp only
     have hap := appendSelected_sub s inp.events [] (by simp)
     split
-    · refine ⟨⟨hap, h.kind, h.hasCb, h.closing, h.ncLive, h.noFault⟩, ?_⟩
+    · refine ⟨⟨hap, h.kind, h.hasCb, h.closing, h.ncLive, h.noFault, h.ncBig⟩, ?_⟩
       intro i fl he; simp at he
     · cases hap2 : appendSelected s inp.events [] with
       | nil =>
         dsimp only
-        refine ⟨⟨by intro i fl hm; simp_all, h.kind, h.hasCb, h.closing, h.ncLive, h.noFault⟩, ?_⟩
+        refine ⟨⟨by intro i fl hm; simp_all, h.kind, h.hasCb, h.closing, h.ncLive, h.noFault, h.ncBig⟩, ?_⟩
         intro i fl he; simp at he
       | cons e r =>
         dsimp only
         rw [hap2] at hap
-        refine ⟨⟨fun i fl hm => hap i fl (List.mem_cons_of_mem _ hm), h.kind, h.hasCb, h.closing, h.ncLive, h.noFault⟩, ?_⟩
+        refine ⟨⟨fun i fl hm => hap i fl (List.mem_cons_of_mem _ hm), h.kind, h.hasCb, h.closing, h.ncLive, h.noFault, h.ncBig⟩, ?_⟩
         intro i fl he
         injection he with he; subst he
         exact hap i fl (List.mem_cons_self ..)
@@ -56,7 +56,7 @@ theorem pollStep_invS (s : St) (inp : PollIn) (h : InvS s none) :
     dsimp only
     have hs := h.selSub
     rw [hsel] at hs
-    refine ⟨⟨fun i fl hm => hs i fl (List.mem_cons_of_mem _ hm), h.kind, h.hasCb, h.closing, h.ncLive, h.noFault⟩, ?_⟩
+    refine ⟨⟨fun i fl hm => hs i fl (List.mem_cons_of_mem _ hm), h.kind, h.hasCb, h.closing, h.ncLive, h.noFault, h.ncBig⟩, ?_⟩
     intro i fl he
     injection he with he; subst he
     exact hs i fl (List.mem_cons_self ..)
@@ -80,11 +80,12 @@ theorem invS_writeReady (s : St) (i : Id) (o : Outcome) (h : InvS s none) (c : C
       · exact invS_updClient s none i c _ h hc (by simp [hcb])
   · exact invS_callback _ _ _ (invS_pollSet s none i _ h (Or.inl ⟨c, hc, rfl, rfl⟩))
 
-theorem invS_newClient (s : St) (nc : Id) (u : Bool) (h : InvS s none) : InvS (newClient s nc u) (some nc) := by
+theorem invS_newClient (s : St) (nc : Id) (u : Bool) (h : InvS s none) (hbig : 1000 ≤ nc) :
+    InvS (newClient s nc u) (some nc) := by
   unfold newClient
   dsimp only
   apply invS_pollSet
-  · refine ⟨h.selSub, ?_, ?_, ?_, ?_, h.noFault⟩
+  · refine ⟨h.selSub, ?_, ?_, ?_, ?_, h.noFault, by intro j hj; injection hj with hj; subst hj; exact hbig⟩
     · intro j reg hj
       have := h.kind j reg hj
       unfold KindOk at *
@@ -128,15 +129,16 @@ theorem invS_finishHandOver (s : St) (nc : Id) (acts : List Act) (h : InvS s (so
   · exact invS_deleteNew s nc h
   · exact invS_grantCb s nc c h hc
 
-theorem invS_handOver (s : St) (i nc : Id) (u : Bool) (h : InvS s none) :
+theorem invS_handOver (s : St) (i nc : Id) (u : Bool) (h : InvS s none) (hbig : 1000 ≤ nc) :
     InvS (finishHandOver (callback (newClient s nc u) i (some nc)).1 nc (callback (newClient s nc u) i (some nc)).2) none :=
-  invS_finishHandOver _ _ _ (invS_callback _ _ _ (invS_newClient s nc u h))
+  invS_finishHandOver _ _ _ (invS_callback _ _ _ (invS_newClient s nc u h hbig))
 
 theorem invS_setFlags (s : St) (nc : Option Id) (h : InvS s nc) (p : Pc) (b : Bool) :
     InvS { s with interrupted := b, pc := p } nc :=
-  ⟨h.selSub, h.kind, h.hasCb, h.closing, h.ncLive, h.noFault⟩
+  ⟨h.selSub, h.kind, h.hasCb, h.closing, h.ncLive, h.noFault, h.ncBig⟩
 
-theorem dispatch_invS (s : St) (ev : Option (Id × Flags)) (o : Outcome) (h : InvS s none) (hev : EvOk s ev) :
+theorem dispatch_invS (s : St) (ev : Option (Id × Flags)) (o : Outcome) (h : InvS s none) (hev : EvOk s ev)
+    (hauto : 1000 ≤ s.nextAuto) :
     InvS (dispatch s ev o).1 none := by
   unfold dispatch
   split
@@ -181,7 +183,7 @@ theorem dispatch_invS (s : St) (ev : Option (Id × Flags)) (o : Outcome) (h : In
               split
               · exact h
               · dsimp only
-                exact invS_handOver _ i _ false (invS_updListener s none i l _ h hl)
+                exact invS_handOver _ i _ false (invS_updListener s none i l _ h hl) hauto
             · simp [haa] at h0
           · simp only [ha, Bool.false_eq_true, if_false]
             have hcc : fl.c = true := by
@@ -200,16 +202,16 @@ theorem dispatch_invS (s : St) (ev : Option (Id × Flags)) (o : Outcome) (h : In
               split
               · exact invS_callback _ _ _ h0
               · dsimp only
-                exact invS_handOver _ i _ false (invS_updEst _ none i e _ h0 he')
+                exact invS_handOver _ i _ false (invS_updEst _ none i e _ h0 he') hauto
 
 /-- one step of run() keeps both invariants -/
-theorem step_invS (s : St) (inp : PollIn) (o : Outcome) (hT : InvT s) (h : InvS s none) :
+theorem step_invS (s : St) (inp : PollIn) (o : Outcome) (hT : InvT s) (hU : InvU s) (h : InvS s none) :
     InvS (step s inp o).1 none := by
   have hfr : ∀ (s' : St) (nc : Option Id), InvS s' nc → ∀ (q : List (Int × Option Id)) (p : Pc) (t : Id → Option TimerS),
       InvS { s' with queue := q, pc := p, timers := t } nc :=
-    fun s' nc h' _ _ _ => ⟨h'.selSub, h'.kind, h'.hasCb, h'.closing, h'.ncLive, h'.noFault⟩
+    fun s' nc h' _ _ _ => ⟨h'.selSub, h'.kind, h'.hasCb, h'.closing, h'.ncLive, h'.noFault, h'.ncBig⟩
   have hfc : ∀ (q : List (Int × Option Id)) (p : Pc), InvS { s with queue := q, pc := p, closing := [] } none :=
-    fun _ _ => ⟨h.selSub, h.kind, h.hasCb, by intro j hj; simp at hj, h.ncLive, h.noFault⟩
+    fun _ _ => ⟨h.selSub, h.kind, h.hasCb, by intro j hj; simp at hj, h.ncLive, h.noFault, h.ncBig⟩
   unfold step
   cases hpc : s.pc with
   | idle => exact h
@@ -255,7 +257,7 @@ theorem step_invS (s : St) (inp : PollIn) (o : Outcome) (hT : InvT s) (h : InvS 
     | cons c rest =>
       dsimp only
       have h0 : InvS { s with closing := rest, pc := Pc.closing now tmo } none := by
-        refine ⟨h.selSub, h.kind, h.hasCb, ?_, h.ncLive, h.noFault⟩
+        refine ⟨h.selSub, h.kind, h.hasCb, ?_, h.ncLive, h.noFault, h.ncBig⟩
         intro j hj; exact h.closing j (by rw [hcl]; exact List.mem_cons_of_mem _ hj)
       have hc := h.closing c (by rw [hcl]; exact List.mem_cons_self ..)
       cases hcc : s.clients c with
@@ -269,6 +271,7 @@ theorem step_invS (s : St) (inp : PollIn) (o : Outcome) (hT : InvT s) (h : InvS 
     dsimp only
     obtain ⟨h1, hev⟩ := pollStep_invS s inp h
     have h2 := dispatch_invS (pollStep s inp).1 (pollStep s inp).2 o h1 hev
+      (by rw [(pollStep_sameO s inp).2.2.2.2.2.2]; exact hU.auto1)
     split
     · exact h2
     · exact hfr _ none h2 _ _ _
@@ -295,37 +298,10 @@ theorem invS_envStep (s : St) (e : EnvOp) (h : InvS s none) : InvS (envStep s e)
     split
     · rename_i l hl; exact invS_updListener s none i l _ h hl
     · exact h
-  case advance dt => exact ⟨h.selSub, h.kind, h.hasCb, h.closing, h.ncLive, h.noFault⟩
+  case advance dt => exact ⟨h.selSub, h.kind, h.hasCb, h.closing, h.ncLive, h.noFault, h.ncBig⟩
   case connFail i =>
     split
     · rename_i l hl; exact invS_updEst s none i l _ h hl
     · exact h
-
-theorem invS_mkPair (s : St) (i : Id) (h : InvS s none) : InvS (mkPair s i) none := by
-  unfold mkPair
-  dsimp only
-  split
-  · apply invS_pollSet
-    · invs_leaf h
-    · exact Or.inl ⟨{ hasCb := true }, by simp [upd], rfl, rfl⟩
-  · exact h
-
-theorem invS_mkListener (s : St) (i : Id) (h : InvS s none) : InvS (mkListener s i) none := by
-  unfold mkListener
-  dsimp only
-  split
-  · apply invS_pollSet
-    · invs_leaf h
-    · exact Or.inr (Or.inl ⟨{}, by simp [upd], rfl, rfl, rfl⟩)
-  · exact h
-
-theorem invS_mkEst (s : St) (i : Id) (h : InvS s none) : InvS (mkEst s i) none := by
-  unfold mkEst
-  dsimp only
-  split
-  · apply invS_pollSet
-    · invs_leaf h
-    · exact Or.inr (Or.inr ⟨{}, by simp [upd], rfl, rfl, rfl⟩)
-  · exact h
 
 end Nstd.Server.C14
